@@ -466,4 +466,27 @@ theorem insertNone_ne_ok_zero {s : Slots} (h : WF s) : (insertNone s).2 ≠ .ok 
     omega
   · rw [e]; intro e'; cases e'
 
+/-- Pigeonhole: a duplicate-free list of ids in `1..=m` has at most `m` elements. -/
+theorem nodup_bounded_length : ∀ (m : Nat) (l : List Nat), l.Nodup → (∀ x ∈ l, 1 ≤ x ∧ x ≤ m) →
+    l.length ≤ m := by
+  intro m
+  induction m with
+  | zero =>
+    intro l _ hb
+    cases l with
+    | nil => simp
+    | cons a t => have := hb a (by simp); omega
+  | succ m ih =>
+    intro l hn hb
+    have h1 : (l.erase (m + 1)).Nodup := hn.erase _
+    have h2 : ∀ x ∈ l.erase (m + 1), 1 ≤ x ∧ x ≤ m := by
+      intro x hx
+      have hx' := (hn.mem_erase_iff).mp hx
+      have := hb x hx'.2
+      have := hx'.1
+      omega
+    have h3 := ih _ h1 h2
+    rw [List.length_erase] at h3
+    split at h3 <;> omega
+
 end AmqModel.Slots
